@@ -325,13 +325,13 @@ theorem siteParams_pin : Gen.CacheLoad.siteParams = [("cache_refreshKey_c0", ["c
   ("cache_BulkRefresh_c0", ["c_withRefresh"]),
   ("cache_BulkRefresh_a2", ["c_clock_NowNano"])] := by rfl
 
-theorem shape_pin : Gen.CacheLoad.shape = [("cache_refreshKey", [6, 0, 5, 2, 0, 0]),
-  ("cache_Get", [3, 0, 3, 0, 0, 0]),
-  ("cache_afterDeleteCall", [6, 0, 6, 0, 0, 0]),
-  ("cache_bulkRefreshKeys", [19, 1, 23, 3, 1, 3]),
-  ("cache_BulkGet", [16, 2, 18, 0, 0, 4]),
-  ("cache_wrapLoad", [2, 0, 3, 1, 0, 0]),
-  ("cache_Refresh", [1, 0, 2, 2, 0, 0]),
-  ("cache_BulkRefresh", [1, 0, 6, 2, 0, 0])] := by rfl
+theorem shape_pin : Gen.CacheLoad.shape = [("cache_refreshKey", [6, 0, 5, 2, 0, 0, 0]),
+  ("cache_Get", [3, 0, 3, 0, 0, 0, 0]),
+  ("cache_afterDeleteCall", [6, 0, 6, 0, 0, 0, 0]),
+  ("cache_bulkRefreshKeys", [19, 1, 23, 3, 1, 3, 0]),
+  ("cache_BulkGet", [16, 2, 18, 0, 0, 4, 0]),
+  ("cache_wrapLoad", [2, 0, 3, 1, 0, 0, 0]),
+  ("cache_Refresh", [1, 0, 2, 2, 0, 0, 0]),
+  ("cache_BulkRefresh", [1, 0, 6, 2, 0, 0, 0])] := by rfl
 
 end OtterVerif.Pin.CacheLoad
